@@ -45,7 +45,15 @@ def main(argv=None):
             rp = json.load(f)
         cases = [rp["case"]] if "case" in rp else rp["cases"]
     else:
-        cases = (c for i, c in enumerate(mod.gen_cases(a.tier, a.seed)) if i % a.nworkers == a.worker)
+        def _stream():
+            k = 0
+            for c in mod.gen_cases(a.tier, a.seed):
+                if c.get("group") != a.group:
+                    continue
+                if k % a.nworkers == a.worker:
+                    yield c
+                k += 1
+        cases = _stream()
     if hasattr(mod, "worker_init"):
         mod.worker_init(a.tier, a.seed)
     n = 0
@@ -56,8 +64,8 @@ def main(argv=None):
 
     agg = new_agg()
     for case in cases:
-        if a.group and case.get("group") != a.group:
-            continue
+        if not a.case_file and case.get("group") != a.group:
+            continue  # grouped cases (e.g. "asan") run only in the worker started for that group
         if time.time() - t0 > a.budget:
             truncated = True
             break
